@@ -41,7 +41,8 @@ def cases(tier, seed):
                [[0, 0, 25], [1, 0, 10], [1, 10, 20]], [[0, 0, 10], [0, 10, 15], [1, 0, 10], [1, 10, 20], [1, 20, 21]]]
     for k, t in enumerate(tables):
         # row labels of the data frame: 0..n-1, shifted, or a permutation (the table itself is in order either way)
-        yield "ext.binsize", {"table": t, "categorical": k % 2 == 0, "index": ["default", "offset", "sorted"][k % 3]}
+        yield "ext.binsize", {"table": t, "categorical": [True, False, "lexical", False][k % 4], "index": ["default", "offset", "sorted"][k % 3],
+                              "names": ["usual", "unsorted"][(k // 2) % 2]}
 
 
 def run(tier, seed, only_case=None):
